@@ -41,9 +41,102 @@ var c16sigs = map[int]string{0: "func()", 8: "func(x uint64)", 16: "func(x uint6
 
 const c16nkinds = 12
 
+// c16api: the calls the generator makes, either methods of a build.Context or the package-level functions of
+// package build (which act on the package's global context; the harness swaps that for a fresh one).
+type c16api struct {
+	pkg bool
+	ctx *build.Context
+}
+
+func (a c16api) Function(name string) {
+	if a.pkg {
+		build.Function(name)
+	} else {
+		a.ctx.Function(name)
+	}
+}
+
+func (a c16api) Attributes(x attr.Attribute) {
+	if a.pkg {
+		build.Attributes(x)
+	} else {
+		a.ctx.Attributes(x)
+	}
+}
+
+func (a c16api) SignatureExpr(e string) {
+	if a.pkg {
+		build.SignatureExpr(e)
+	} else {
+		a.ctx.SignatureExpr(e)
+	}
+}
+
+func (a c16api) AllocLocal(n int) operand.Mem {
+	if a.pkg {
+		return build.AllocLocal(n)
+	}
+	return a.ctx.AllocLocal(n)
+}
+
+func (a c16api) GP64() reg.GPVirtual {
+	if a.pkg {
+		return build.GP64()
+	}
+	return a.ctx.GP64()
+}
+
+// ins emits one instruction by opcode name through the generated constructor of the chosen route.
+func (a c16api) ins(op string, ops ...operand.Op) {
+	type two = func(operand.Op, operand.Op)
+	var f2 two
+	switch op {
+	case "NOP":
+		if a.pkg {
+			build.NOP()
+		} else {
+			a.ctx.NOP()
+		}
+		return
+	case "RET":
+		if a.pkg {
+			build.RET()
+		} else {
+			a.ctx.RET()
+		}
+		return
+	case "ADDQ":
+		f2 = pick2(a.pkg, build.ADDQ, a.ctx.ADDQ)
+	case "MOVQ":
+		f2 = pick2(a.pkg, build.MOVQ, a.ctx.MOVQ)
+	case "MOVB":
+		f2 = pick2(a.pkg, build.MOVB, a.ctx.MOVB)
+	case "MOVW":
+		f2 = pick2(a.pkg, build.MOVW, a.ctx.MOVW)
+	case "MOVL":
+		f2 = pick2(a.pkg, build.MOVL, a.ctx.MOVL)
+	case "LEAQ":
+		f2 = pick2(a.pkg, build.LEAQ, a.ctx.LEAQ)
+	case "XORQ":
+		f2 = pick2(a.pkg, build.XORQ, a.ctx.XORQ)
+	case "XORL":
+		f2 = pick2(a.pkg, build.XORL, a.ctx.XORL)
+	default:
+		panic("c16: opcode " + op)
+	}
+	f2(ops[0], ops[1])
+}
+
+func pick2(pkg bool, p, c func(operand.Op, operand.Op)) func(operand.Op, operand.Op) {
+	if pkg {
+		return p
+	}
+	return c
+}
+
 // c16emit emits instruction `kind`; reports whether the generator asked for a
 // write to a view of the base pointer register.
-func c16emit(ctx *build.Context, kind int, locals []operand.Mem, r *rng) bool {
+func c16emit(ctx c16api, kind int, locals []operand.Mem, r *rng) bool {
 	pickLocal := func() (operand.Mem, bool) {
 		if len(locals) == 0 {
 			return operand.Mem{}, false
@@ -52,49 +145,49 @@ func c16emit(ctx *build.Context, kind int, locals []operand.Mem, r *rng) bool {
 	}
 	switch kind {
 	case 0:
-		ctx.ADDQ(reg.RAX, reg.RBX)
+		ctx.ins("ADDQ", reg.RAX, reg.RBX)
 	case 1:
-		ctx.MOVQ(operand.U32(7), reg.RCX)
+		ctx.ins("MOVQ", operand.U32(7), reg.RCX)
 	case 2: // store to a local
 		if m, ok := pickLocal(); ok {
-			ctx.MOVQ(reg.RAX, m)
+			ctx.ins("MOVQ", reg.RAX, m)
 		} else {
-			ctx.NOP()
+			ctx.ins("NOP")
 		}
 	case 3: // load from a local
 		if m, ok := pickLocal(); ok {
-			ctx.MOVB(m.Offset(r.intn(4)), reg.DL)
+			ctx.ins("MOVB", m.Offset(r.intn(4)), reg.DL)
 		} else {
-			ctx.NOP()
+			ctx.ins("NOP")
 		}
 	case 4: // virtual registers
 		v := ctx.GP64()
-		ctx.MOVQ(operand.U32(1), v)
-		ctx.ADDQ(v, reg.RAX)
+		ctx.ins("MOVQ", operand.U32(1), v)
+		ctx.ins("ADDQ", v, reg.RAX)
 		return false
 	case 5:
 		if m, ok := pickLocal(); ok {
-			ctx.LEAQ(m, reg.RSI)
+			ctx.ins("LEAQ", m, reg.RSI)
 		} else {
-			ctx.XORQ(reg.RSI, reg.RSI)
+			ctx.ins("XORQ", reg.RSI, reg.RSI)
 		}
 	case 6:
-		ctx.MOVQ(operand.U32(0x1234), reg.RBP)
+		ctx.ins("MOVQ", operand.U32(0x1234), reg.RBP)
 		return true
 	case 7:
-		ctx.MOVL(operand.U32(0x1234), reg.EBP)
+		ctx.ins("MOVL", operand.U32(0x1234), reg.EBP)
 		return true
 	case 8:
-		ctx.XORL(reg.EBP, reg.EBP)
+		ctx.ins("XORL", reg.EBP, reg.EBP)
 		return true
 	case 9:
-		ctx.MOVW(operand.U16(5), reg.BP)
+		ctx.ins("MOVW", operand.U16(5), reg.BP)
 		return true
 	case 10:
-		ctx.MOVB(operand.U8(5), reg.BPB)
+		ctx.ins("MOVB", operand.U8(5), reg.BPB)
 		return true
 	case 11: // reads BP only
-		ctx.MOVQ(reg.RBP, reg.RAX)
+		ctx.ins("MOVQ", reg.RBP, reg.RAX)
 	}
 	return false
 }
@@ -167,61 +260,106 @@ type c16result struct {
 	asm       []byte
 }
 
-// c16run drives the real code on one case.
-func c16run(c c16case, r *rng) (res c16result) {
+// c16run drives the real code on one case (one function in a context of its own).
+func c16run(c c16case, r *rng) c16result {
+	return c16runMulti([]c16case{c}, r, false)[0]
+}
+
+// c16runMulti drives the real code on several cases as the functions f0, f1, … of ONE context (method calls on a
+// fresh build.Context, or the package-level functions of package build acting on a swapped-in global context),
+// compiles the file as a whole and prints it.
+func c16runMulti(cs []c16case, r *rng, pkg bool) (out []c16result) {
+	out = make([]c16result, len(cs))
+	fail := func(f func(*c16result)) {
+		for i := range out {
+			f(&out[i])
+		}
+	}
+	ctx := build.NewContext()
+	if pkg {
+		old := build.VerifSwapContext(ctx)
+		defer build.VerifSwapContext(old)
+	}
 	defer func() {
 		if e := recover(); e != nil {
-			res.panicked = true
+			fail(func(x *c16result) { x.panicked = true })
 		}
 	}()
-	ctx := build.NewContext()
-	ctx.Function("f")
-	var a attr.Attribute
-	if c.noframe {
-		a |= attr.NOFRAME
-	}
-	if c.nosplit {
-		a |= attr.NOSPLIT
-	}
-	ctx.Attributes(a)
-	ctx.SignatureExpr(c16sigs[c.args])
-	for _, op := range c.ops {
-		if op.alloc {
-			res.mems = append(res.mems, ctx.AllocLocal(op.size))
-		} else {
-			res.flags = append(res.flags, c16emit(ctx, op.kind, res.mems, r))
+	api := c16api{pkg: pkg, ctx: ctx}
+	name := func(i int) string {
+		if len(cs) == 1 {
+			return "f"
 		}
+		return "f" + itoa(i)
 	}
-	ctx.RET()
+	for i, c := range cs {
+		res := &out[i]
+		api.Function(name(i))
+		var a attr.Attribute
+		if c.noframe {
+			a |= attr.NOFRAME
+		}
+		if c.nosplit {
+			a |= attr.NOSPLIT
+		}
+		api.Attributes(a)
+		api.SignatureExpr(c16sigs[c.args])
+		for _, op := range c.ops {
+			if op.alloc {
+				res.mems = append(res.mems, api.AllocLocal(op.size))
+			} else {
+				res.flags = append(res.flags, c16emit(api, op.kind, res.mems, r))
+			}
+		}
+		api.ins("RET")
+	}
 	file, err := ctx.Result()
 	if err != nil {
-		res.err = true
+		fail(func(x *c16result) { x.err = true })
 		return
 	}
-	fn := file.Functions()[0]
-	res.before = fn.FrameBytes()
+	fns := file.Functions()
+	if len(fns) != len(cs) {
+		fail(func(x *c16result) { x.err = true })
+		return
+	}
+	for i, fn := range fns {
+		out[i].before = fn.FrameBytes()
+	}
 	if err := pass.Compile.Execute(file); err != nil {
-		res.err = true
+		fail(func(x *c16result) { x.err = true })
 		return
 	}
-	res.frame = fn.FrameBytes()
-	for _, i := range fn.Instructions() {
-		for _, o := range i.OutputRegisters() {
-			if p := reg.ToPhysical(o); p != nil && p.Kind() == reg.KindGP && p.PhysicalIndex() == reg.RBP.PhysicalIndex() {
-				res.scanClob = true
+	for k, fn := range fns {
+		res := &out[k]
+		res.frame = fn.FrameBytes()
+		for _, i := range fn.Instructions() {
+			for _, o := range i.OutputRegisters() {
+				if p := reg.ToPhysical(o); p != nil && p.Kind() == reg.KindGP && p.PhysicalIndex() == reg.RBP.PhysicalIndex() {
+					res.scanClob = true
+				}
 			}
 		}
 	}
-	out, err := printer.NewGoAsm(printer.Config{Name: "avoh", Pkg: "p"}).Print(file)
+	asm, err := printer.NewGoAsm(printer.Config{Name: "avoh", Pkg: "p"}).Print(file)
 	if err != nil {
-		res.err = true
+		fail(func(x *c16result) { x.err = true })
 		return
 	}
-	res.asm = out
-	for _, line := range strings.Split(string(out), "\n") {
-		if strings.HasPrefix(line, "TEXT ") {
-			fs := strings.Split(line, ", ")
-			res.text = fs[len(fs)-1]
+	for _, line := range strings.Split(string(asm), "\n") {
+		if !strings.HasPrefix(line, "TEXT ·") {
+			continue
+		}
+		n := strings.TrimPrefix(line, "TEXT ·")
+		if j := strings.Index(n, "(SB)"); j >= 0 {
+			n = n[:j]
+		}
+		fs := strings.Split(line, ", ")
+		for i := range cs {
+			if name(i) == n {
+				out[i].text = fs[len(fs)-1]
+				out[i].asm = asm
+			}
 		}
 	}
 	return
@@ -307,6 +445,18 @@ func c16emitCase(o *out, c c16case, res c16result, st map[string]int) {
 	areq := append([]string{"accept-locals", itoa(len(regs))}, acc...)
 	areq = append(areq, forced, itoa(res.frame), res.text)
 	o.emit(strings.Join(areq, " "), "ok")
+	st["judged_functions"]++
+	if res.frame >= 1<<31 {
+		st["frame_ge_2^31"]++
+	}
+	if c.args > 0 {
+		st["judged_with_args"]++
+	}
+	if genClob {
+		// the model was told "BP is written" on the generator's word: the compiled function must really write it
+		o.emit("accept-bpwrite 1 "+c16b(res.scanClob), "ok")
+		st["bp_write_requested"]++
+	}
 }
 
 // c16parse rebuilds a case from a `locals …` request line (replay / corpus).
@@ -668,8 +818,39 @@ func init() {
 			c16emitCase(o, c, c16run(c, r), st)
 		}
 		for k := 0; k < *f.n; k++ {
-			c := c16gen(r)
-			c16emitCase(o, c, c16run(c, r), st)
+			switch r.intn(8) {
+			case 0, 1:
+				// several functions in one context (the file is compiled and printed as a whole); half of them
+				// through the package-level functions of package build.  A NOFRAME function writing BP makes
+				// Compile refuse the WHOLE file: keep such functions to single-function contexts.
+				n := 2 + r.intn(3)
+				cs := make([]c16case, n)
+				for i := range cs {
+					cs[i] = c16gen(r)
+					if cs[i].noframe {
+						for _, op := range cs[i].ops {
+							if !op.alloc && op.kind >= 6 && op.kind <= 10 {
+								cs[i].noframe = false
+							}
+						}
+					}
+				}
+				pkg := r.chance(1, 2)
+				for i, res := range c16runMulti(cs, r, pkg) {
+					c16emitCase(o, cs[i], res, st)
+					st["multi_function_context_functions"]++
+					if pkg {
+						st["package_level_route_functions"]++
+					}
+				}
+			case 2:
+				c := c16gen(r)
+				c16emitCase(o, c, c16runMulti([]c16case{c}, r, true)[0], st)
+				st["package_level_route_functions"]++
+			default:
+				c := c16gen(r)
+				c16emitCase(o, c, c16run(c, r), st)
+			}
 		}
 		if *cpu > 0 {
 			if err := c16cpu(*cpudir, *cpu, r.fork(), o, st); err != nil {
